@@ -529,6 +529,8 @@ pub fn run(ctx: &Ctx) -> i32 {
             ctx.note("verif/miri/run.sh missing: miri pass skipped");
         }
     }
+    ctx.sample(json!({"Vec<u16>": [255, 65280, 65535], "get_sig": vec![0x00ffu16, 0xff00, 0xffff].get_sig()}));
+    ctx.sample(json!({"String": "aé\u{10348}", "get_sig": "aé\u{10348}".to_string().get_sig()}));
     println!("C18 evaluations={} valgrind: {} miri: {}", evals, valgrind_status, miri_status);
     let coverage = json!({
         "evaluations": evals,
